@@ -227,7 +227,9 @@ ValuesOf(form, ctx) ==
          {Ind(A("DW_FORM_data1", N(200))), Ind(A("DW_FORM_udata", B(UlebOfNat(300)))), Ind(A("DW_FORM_strp", N(1))),
           Ind(A("DW_FORM_string", B(<<104, 105>>))), Ind(A("DW_FORM_flag_present", N(0))), Ind(A("DW_FORM_sdata", B(SlebOfInt(-2)))),
           Ind(A("DW_FORM_block1", B(<<1, 2, 3>>))), Ind(A("DW_FORM_ref4", N(11))), Ind(Ind(A("DW_FORM_data2", N(513)))),
-          Ind(Ax("DW_FORM_strx1", N(1), 1)), Ind(A("DW_FORM_addr", N(4096)))}
+          Ind(Ax("DW_FORM_strx1", N(1), 1)), Ind(A("DW_FORM_addr", N(4096))),
+          \* the actual form code is a ULEB128 number (7.5.3): vendor forms have two-byte codes
+          Ind(A("DW_FORM_GNU_strp_alt", N(StrOffs[1]))), Ind(A("DW_FORM_GNU_ref_alt", N(11))), Ind(A("DW_FORM_strp_sup", N(StrOffs[1])))}
 FormsUnit(ctx, form, a) ==
   LET spec == [name |-> AtName, form |-> form, ic |-> IF form = "DW_FORM_implicit_const" THEN a.v.b ELSE <<>>]
       child == Decl(2, TagVariable, FALSE, <<spec, Spec1(AtDeclLine, "DW_FORM_data1")>>)
